@@ -492,6 +492,18 @@ pub fn gen_c03(rng: &mut Rng, count: usize, thorough: bool) -> Vec<Case> {
             out.push(apply("nested-count", r, data.clone()));
         }
     }
+    // a surplus operand is rejected whatever it is - null, false, 0, "" and [] included
+    for name in all_ops() {
+        for n in 1..=4usize {
+            for extra in [Value::Null, json!(false), int(0), s(""), json!([])] {
+                let mut a = benign_args(name, n, rng);
+                a.push(extra.clone());
+                out.push(apply(&format!("surplus:{}:{}", name, n + 1), op(name, a.clone()), data.clone()));
+                a.push(extra);
+                out.push(apply(&format!("surplus:{}:{}", name, n + 2), op(name, a), data.clone()));
+            }
+        }
+    }
     // members of a collection written in the rule are expressions: the bare form of an operator
     // that cannot take one operand is rejected there as anywhere
     for q in ["all", "some", "none"] {
@@ -655,6 +667,17 @@ pub fn gen_c04_subst(rng: &mut Rng, count: usize) -> Vec<(String, Vec<Value>, Va
             .collect();
         out.push((name.to_string(), args, d));
     }
+    // an operand is reduced to its value before its neighbours see it: the same operator nested
+    // in itself, on operands whose sum or product depends on the grouping
+    for (o, a, b, c) in [("+", 0.1, 0.2, 0.3), ("+", 1e308, 1e308, -1e308), ("+", -1e308, 1e308, 1e308), ("*", 1e200, 1e200, 1e-200), ("*", 1e-200, 1e-200, 1e200),
+                         ("+", 1e16, 1.0, 1.0), ("+", 9007199254740992.0, 1.0, 1.0), ("*", 0.1, 0.2, 0.3)] {
+        out.push((o.to_string(), vec![fl(a), op(o, vec![fl(b), fl(c)])], json!({})));
+        out.push((o.to_string(), vec![op(o, vec![fl(a), fl(b)]), fl(c)], json!({})));
+        out.push((o.to_string(), vec![fl(a), op(o, vec![fl(b)]), op(o, vec![fl(c), int(0)])], json!({})));
+    }
+    for (o, xs) in [("max", vec![fl(1.0), fl(2.5)]), ("min", vec![fl(-0.0), int(0)]), ("cat", vec![s("a"), fl(1.0)]), ("merge", vec![json!([1]), json!([[2]])])] {
+        out.push((o.to_string(), vec![xs[0].clone(), op(o, vec![xs[1].clone(), xs[0].clone()])], json!({})));
+    }
     out
 }
 
@@ -784,6 +807,16 @@ pub fn gen_c06(rng: &mut Rng, count: usize, _thorough: bool) -> Vec<Case> {
         out.push(apply(&format!("or/computed-{}", tag), op("or", vec![r.clone(), s("next")]), json!({})));
         out.push(apply(&format!("if/computed-{}", tag), op("if", vec![r.clone(), s("T"), s("F")]), json!({})));
     }
+    // !! always returns a boolean, ! its negation - also when the operand is an operation that
+    // returns one of its own operands
+    for v in corner_values() {
+        if is_operation(&v) { continue; }
+        for inner in [op("or", vec![int(0), v.clone()]), op("and", vec![int(1), v.clone()]), op("or", vec![v.clone(), v.clone()]), op("if", vec![json!(true), v.clone(), int(1)]),
+                      op("?:", vec![json!(false), int(1), v.clone()]), op("max", vec![int(0)]), op("cat", vec![v.clone()]), op("merge", vec![v.clone()]), op("var", vec![s("nope"), v.clone()])] {
+            out.push(apply("!!/of-operation", op("!!", vec![inner.clone()]), Value::Null));
+            out.push(apply("!/of-operation", op("!", vec![inner]), Value::Null));
+        }
+    }
     // a predicate that is itself a literal (an array above all): judged as the value it is
     for pred in [json!([0]), json!([]), json!([1, 2]), json!([[]]), json!([false]), json!([{"var": ""}]), json!(""), json!("0"), json!(0.0), json!({}), json!({"a": 1, "b": 2})] {
         for q in ["all", "some", "none", "filter"] {
@@ -899,6 +932,17 @@ pub fn gen_c07(rng: &mut Rng, count: usize, thorough: bool) -> Vec<Case> {
         (json!({}), s("[object Object]")), (json!([1]), int(1)), (json!([[1]]), int(1)), (json!([1, 2]), s("1,2")),
         (fl(1.0), s("1.0")), (fl(1e21), s("1e+21")), (fl(1e21), json!([fl(1e21)])), (json!([fl(0.1)]), s("0.1")),
     ];
+    // a number inside an array meets a string through its JSON text - at every size where that
+    // text changes shape
+    let mut extra = extra;
+    for f in [1e15, 1e16, 1.5e17, 1e19, 123456789012345680000.0, 9.999999999999999e20, 1e21, 1e22, 1e-4, 1e-5, 1e-6, 1e-7, 1.234e-7, -1.5e20, 12345678901234567.0] {
+        let text = serde_json::to_string(&fl(f)).unwrap();
+        let plain = format!("{}", f);
+        extra.push((Value::Array(vec![fl(f)]), s(&text)));
+        extra.push((Value::Array(vec![fl(f)]), s(&plain)));
+        extra.push((Value::Array(vec![int(1), fl(f)]), s(&format!("1,{}", text))));
+        extra.push((Value::Array(vec![fl(f)]), fl(f)));
+    }
     let mut out = gen_pairs(rng, count * 4 / 5, thorough, &["==", "!="], &["abstract_eq", "abstract_ne"], &extra);
     for v in core_values().iter().chain(arrays().iter()).chain(objects().iter()) {
         out.push(helper("same-ref", "abstract_eq_same", vec![v.clone()]));
